@@ -165,6 +165,17 @@ func (e *testEnv) endpoints() []endpointCase {
 		{name: "skip-js-query", target: "/foo/secret?x=.js"},
 		{name: "skip-negated", target: "/zzz"},
 		{name: "trusted-remote", target: "/app/page", remote: "10.1.2.3:5555"},
+		// peers just inside / just outside configured networks of different prefix lengths (the harness judges with its own CIDR arithmetic)
+		{name: "remote-10.0.0.9", target: "/app/page", remote: "10.0.0.9:1"}, {name: "remote-10.0.77.9", target: "/app/page", remote: "10.0.77.9:1"},
+		{name: "remote-10.0.1.0", target: "/app/page", remote: "10.0.1.0:1"}, {name: "remote-192.168.3.4", target: "/app/page", remote: "192.168.3.4:1"},
+		{name: "remote-192.169.0.1", target: "/app/page", remote: "192.169.0.1:1"}, {name: "remote-172.16.5.5", target: "/app/page", remote: "172.16.5.5:1"},
+		{name: "remote-172.32.0.1", target: "/app/page", remote: "172.32.0.1:1"}, {name: "remote-v6-in", target: "/app/page", remote: "[2001:db8::1]:2"},
+		{name: "remote-v6-out", target: "/app/page", remote: "[2001:db9::1]:2"}, {name: "remote-ula", target: "/app/page", remote: "[fd12::1]:3"}, {name: "remote-ll", target: "/app/page", remote: "[fe80::1]:3"},
+		{name: "remote-mapped", target: "/app/page", remote: "[::ffff:10.0.0.9]:4"},
+		// a header CLAIMING another method is not the method: no preflight exemption, no method-qualified rule
+		{name: "fake-preflight-xfm", target: "/app/page", header: http.Header{"X-Forwarded-Method": {"OPTIONS"}}},
+		{name: "fake-preflight-override", target: "/app/page", method: "POST", body: "a=b", header: http.Header{"X-Http-Method-Override": {"OPTIONS"}, "X-Method-Override": {"OPTIONS"}, "X-Original-Method": {"OPTIONS"}}},
+		{name: "fake-get-on-post", target: "/foo/a.js", method: "POST", body: "a=b", header: http.Header{"X-Forwarded-Method": {"GET"}, "X-Http-Method-Override": {"GET"}}},
 		{name: "authonly", target: p + "/auth"},
 		{name: "authonly-groups", target: p + "/auth?allowed_groups=dev,qa"},
 		{name: "authonly-groups-no", target: p + "/auth?allowed_groups=nobody"},
@@ -192,6 +203,8 @@ func authzConfigs(r *rng, n int) []proxyCfg {
 		{APIRoutes: []string{"^/api/"}},
 		{SkipAuthRoutes: []string{"GET=^/foo/.*\\.js$", "GET!=^/a", "POST=^/never"}, SkipPreflight: true},
 		{SkipAuthRegex: []string{"^/foo/"}, TrustedIPs: []string{"10.0.0.0/8", "::1"}},
+		{TrustedIPs: []string{"192.168.0.0/16", "10.0.0.0/24", "172.16.0.0/12", "2001:db8::/32", "fd00::/8"}, SkipPreflight: true},
+		{TrustedIPs: []string{"10.0.0.0/24", "192.168.0.0/16", "fd00::/8", "2001:db8::/32", "127.0.0.1"}, Redis: true, ReverseProxy: false},
 		{SkipJwtBearer: true},
 		{Htpasswd: map[string]string{"bob": "hunter2"}, HtpasswdGroups: []string{"staff"}},
 		{EmailDomains: []string{"example.org"}},
@@ -325,7 +338,7 @@ func splitRule(rule string) (method string, negate bool, re string) {
 
 func init() {
 	registerSuite("e2e-authz", func(c *suiteCtx) {
-		cfgs := authzConfigs(c.rng.fork(), 14+4*(c.scale-1))
+		cfgs := authzConfigs(c.rng.fork(), 16+4*(c.scale-1))
 		u := defaultUser()
 		for ci, cfg := range cfgs {
 			if cfg.InjectRequest == nil {
@@ -341,7 +354,7 @@ func init() {
 			eps := e.endpoints()
 			for _, cr := range creds {
 				for ei, ep := range eps {
-					if c.scale == 1 && ci >= 14 && (ei+ci)%2 == 0 {
+					if c.scale == 1 && ci >= 16 && (ei+ci)%2 == 0 {
 						continue
 					}
 					h := http.Header{}
@@ -400,9 +413,43 @@ func init() {
 					}
 				}
 			}
+			// a signed-out session is no credential: with a server-side store and a refresh between login and sign-out, no
+			// cookie the browser ever held is honoured after the sign-out answered with its success redirect
+			if cfg.Redis && ci < 12 {
+				b := newBrowser()
+				if lr := e.login(b, u, "/"); lr.OK {
+					first := b.cookieHeader()
+					// force a refresh: replace the stored session by an old one under the same ticket is not possible from outside,
+					// so drive the real path: an aged session cookie of the same user, refreshed by the proxy, then signed out
+					s := e.sessionFor(u, 2*time.Hour)
+					s.RefreshToken = fmt.Sprintf("rt-so-%d-%d", ci, time.Now().UnixNano())
+					e.registerRT(s.RefreshToken, u)
+					ob := newBrowser()
+					ob.jarFromHeader(e.issueSessionCookie(s))
+					held := []string{ob.cookieHeader()}
+					if r1 := e.do(reqSpec{Target: "/app/page", Cookie: ob.cookieHeader()}); r1.raw != nil {
+						ob.apply(r1.raw)
+						held = append(held, ob.cookieHeader())
+					}
+					so := e.do(reqSpec{Target: e.opts.ProxyPrefix + "/sign_out", Cookie: ob.cookieHeader()})
+					so1 := e.do(reqSpec{Target: e.opts.ProxyPrefix + "/sign_out", Cookie: first})
+					c.count("c01:signed-out-replay")
+					for hi, ck := range append(held, first) {
+						if so.Status != 302 || so1.Status != 302 || ck == "" {
+							continue
+						}
+						r2 := e.do(reqSpec{Target: "/app/page", Cookie: ck})
+						c.casen(fmt.Sprintf("c01|signedout|%d|%d", ci, hi), fmt.Sprint(r2.Status))
+						if len(r2.Hits) > 0 && r2.Hits[0].Header.Get("X-Forwarded-User") != "" {
+							c.violation("C01", "a request carrying a cookie of a session that was signed out (success redirect) is forwarded upstream as authenticated",
+								map[string]interface{}{"which_cookie": []string{"before the refresh", "after the refresh", "login cookie"}[min(hi, 2)], "refresh_period": e.opts.Cookie.Refresh.String(), "cfg": fmt.Sprintf("%+v", cfg)})
+						}
+					}
+				}
+			}
 			e.close()
 		}
-		c.close([]string{"c01:no-email-login", "cred:valid", "cred:tampered", "cred:none", "c01:forwarded", "c01:refused", "kind:upstream", "kind:signInPage", "kind:accepted", "kind:userInfo"})
+		c.close([]string{"c01:no-email-login", "c01:signed-out-replay", "cred:valid", "cred:tampered", "cred:none", "c01:forwarded", "c01:refused", "kind:upstream", "kind:signInPage", "kind:accepted", "kind:userInfo"})
 	})
 }
 
